@@ -26,7 +26,7 @@ def run(ctx):
         if len(gs) != len(c['graphs']):
             viol.append({'signature': 'harness-error', 'what': f'case {i}: graph extraction unsupported: {c["graphs"]}', 'case': None})
             continue
-        keyed = c['kind'] in ('filter', 'groupby')
+        keyed = c['kind'] in ('filter', 'groupby', 'join')
         lits.append('{| im_graphs := ' + lib.clist([f'({lib.cgraph(g["nodes"])}, {g["out"]})' for g in gs])
                     + f'; im_flag := {str(bool(c["flag"])).lower()}; im_keyed := {str(keyed).lower()}; im_raised := {str(c["raised"] is not None).lower()} |}}')
         idx.append(i)
